@@ -1,4 +1,5 @@
 import CentrifugeVerif.Proofs.Queue
+import CentrifugeVerif.Proofs.Writer
 /-!
 # C12 — the per-connection write path delivers messages exactly
 
@@ -53,3 +54,110 @@ example :
 example : ((RingQ.new 0).add ⟨1, 1⟩).2 = .panic := by decide
 
 end CentrifugeVerif.Queue
+
+/-!
+## Part 2 — the writer (`writer.go`) as a transition system
+
+`Writer.step` (in `Model/Writer.lean`) is the executable step function of the model: producers
+(`Add`/`AddMany`, the `MaxQueueSize` check, timer-mode scheduling), the flusher goroutine in its modes,
+the timer-driven `flush`, `close(flush)`, direct writes, virtual time and the timers, each queue call
+and each `w.mu` critical-section boundary an atomic step.  `Reachable c w` quantifies over **all** label
+sequences, i.e. all interleavings and all timings.  The theorems hold for every configuration `c`
+(mode, write delay, `maxMessagesInFrame`, shrink delay, `MaxQueueSize`) with a positive queue capacity
+(`newWriter` maps 0 to 2).
+-/
+namespace CentrifugeVerif.Writer
+open Queue
+
+/-- **Exactly-once, in order.**  In every reachable state, as long as no transport write has failed,
+what the transport received from the queue (successful `WriteFn`/`WriteManyFn` calls, flattened) is a
+prefix of the sequence of messages accepted by `Add`/`AddMany`, in queue order — no loss, no
+duplication, no reordering, whatever the mode, delays, frame limit, growth and shrinking, and whatever
+`close` does concurrently. -/
+theorem writer_prefix_in_order (c : Cfg) (hc : 0 < c.initCap) (w : W) (hr : Reachable c w)
+    (hf : w.failed = false) : txq w.tx <+: w.enq := by
+  obtain ⟨rest, h1, _⟩ := (inv_reachable hc hr).order hf
+  exact ⟨w.holder.inflight ++ rest, by rw [h1, List.append_assoc]⟩
+
+/-- more precisely: accepted = delivered ++ (batch in the hands of the holder of `w.mu`) ++ queued,
+unless `close(false)` discarded the queue -/
+theorem writer_conservation (c : Cfg) (hc : 0 < c.initCap) (w : W) (hr : Reachable c w)
+    (hf : w.failed = false) (hd : w.dropped = false) :
+    w.enq = txq w.tx ++ w.holder.inflight ++ w.q.toList := by
+  obtain ⟨rest, h1, h2⟩ := (inv_reachable hc hr).order hf
+  rw [h1, h2 hd]
+
+/-- **Close with flush delivers everything.**  Once `close(true)` has returned and no write failed, the
+transport has received exactly the accepted sequence (and later `Add`s are refused, see
+`closed_refuses`). -/
+theorem close_flush_delivers_all (c : Cfg) (hc : 0 < c.initCap) (w : W) (hr : Reachable c w)
+    (hcd : w.closeDone = some true) (hf : w.failed = false) (hfree : w.holder = .free) :
+    txq w.tx = w.enq := by
+  have hI := inv_reachable hc hr
+  obtain ⟨rest, h1, h2⟩ := hI.order hf
+  have hnd : w.dropped = false := by
+    cases hd : w.dropped with
+    | false => rfl
+    | true => have := hI.k1 hd; simp [closeFlag, hfree, hcd] at this
+  have hqc : w.q.closed = true := hI.k2 (Or.inl (by simp [hcd]))
+  rw [h1, h2 hnd, RingQ.closed_toList hI.qinv hqc, hfree]
+  simp [Holder.inflight]
+
+/-- after `close` returned the queue is closed, so every later `Add` is refused -/
+theorem closed_refuses (c : Cfg) (hc : 0 < c.initCap) (w : W) (hr : Reachable c w) (hcd : w.closeDone.isSome = true)
+    (x : Item) : (w.q.add x).2 = .closed := by
+  have hI := inv_reachable hc hr
+  rw [RingQ.add_closed (hI.k2 (Or.inl hcd))]
+
+/-- **Slow consumer exactly when over the limit.**  Every `enqueue`/`enqueueMany` call that got past
+`Add` returns `DisconnectSlow` iff `MaxQueueSize > 0` and the bytes queued at the moment of its `Size()`
+read (the byte sum of the queue's content, third component) exceed `MaxQueueSize`. -/
+theorem slow_iff_oversize (c : Cfg) (hc : 0 < c.initCap) (w : W) (hr : Reachable c w)
+    (xs : List Item) (res : Res) (queued : Nat) (hm : (xs, res, queued) ∈ w.results) :
+    res = .slow ↔ (0 < c.maxQueueSize ∧ c.maxQueueSize < queued) :=
+  (inv_reachable hc hr).slow _ hm
+
+/-- no producer, flusher or closer is in the middle of anything -/
+def quiescent (w : W) : Prop :=
+  w.holder = .free ∧ w.pendCheck = [] ∧ w.pendSched = 0 ∧ w.flushPending = 0
+
+/-- **Timer mode strands no message.**  In timer-driven mode, whenever the system is at rest with a
+non-empty queue — connection not closed, no write failed, no enqueue answered `DisconnectSlow` (those
+two end the connection) — the flush timer is armed.  (That an armed timer eventually fires is the
+runtime's part.) -/
+theorem timer_mode_no_stranded_message (c : Cfg) (hc : 0 < c.initCap) (hm : c.mode = .timer) (w : W)
+    (hr : Reachable c w) (hq : quiescent w) (hne : 0 < w.q.cnt) (hcl : w.closed = false)
+    (hf : w.failed = false) (hs : w.slowSeen = false) : w.flushAt.isSome = true := by
+  obtain ⟨ls, hrun⟩ := hr
+  have hT := tinv_run hm (WInv.init c hc) (TInv.init c hm) ls hrun
+  obtain ⟨h1, h2, h3, h4⟩ := hq
+  rcases hT.live hcl hf hs hne with h | h | h | h | h
+  · exact h
+  · omega
+  · simp [h1, Holder.flushing] at h
+  · exact absurd h2 h
+  · omega
+
+/-! Non-vacuity: concrete reachable states of each kind (`decide` runs the step function). -/
+
+def exCfgTimer : Cfg := { mode := .timer, writeDelay := 10, maxFrame := 2, shrinkDelay := 0, maxQueueSize := 4, initCap := 2 }
+
+/-- timer mode: three messages, timer fires, one batch of two goes out, close(true) flushes the third -/
+def exRun : List Lbl :=
+  [.add [⟨1, 1⟩] false, .check 0, .sched, .add [⟨2, 1⟩, ⟨3, 1⟩] true, .check 0, .sched, .tick 10, .fire, .tLock,
+   .h true, .h true, .h true, .h true, .tFin, .close true, .h true, .h true, .h true]
+
+example : (run exCfgTimer (W.init exCfgTimer) exRun).map (fun w => (txq w.tx, w.enq, w.closeDone, w.failed, w.holder)) =
+    some ([⟨1, 1⟩, ⟨2, 1⟩, ⟨3, 1⟩], [⟨1, 1⟩, ⟨2, 1⟩, ⟨3, 1⟩], some true, false, .free) := by decide
+
+/-- a slow-consumer answer: 5 bytes queued with `MaxQueueSize = 4` -/
+example : (run exCfgTimer (W.init exCfgTimer) [.add [⟨1, 5⟩] false, .check 0]).map (·.results) =
+    some [([⟨1, 5⟩], .slow, 5)] := by decide
+
+/-- a quiescent timer-mode state with a non-empty queue (the flush timer is armed: deadline 10) -/
+example : (run exCfgTimer (W.init exCfgTimer) [.add [⟨1, 1⟩] false, .check 0, .sched]).map
+    (fun w => decide (w.q.cnt = 1 ∧ w.flushAt = some 10 ∧ w.holder = .free ∧ w.pendCheck = [] ∧
+      w.pendSched = 0 ∧ w.flushPending = 0 ∧ w.closed = false ∧ w.failed = false ∧ w.slowSeen = false)) =
+    some true := by decide
+
+end CentrifugeVerif.Writer
